@@ -548,6 +548,109 @@ fn window_only_long(run: &Run, total: &mut Ctx) {
     }));
 }
 
+/// window-only dependence on every input back end (seed round 6: the default driver bodies of VecDeque / option
+/// views / Polars may compute the window start differently from the Vec fast paths): the last output on
+/// A ++ W against the last output on W alone, per back end, single- and two-series statistics
+fn window_only_backends(run: &Run, total: &mut Ctx) {
+    use mc_adapt::backends::{for_backends, for_backends_opt};
+    let name = "window-only-backends";
+    let alpha: Vec<X> = vec![None, Some(0.0), Some(1.0), Some(3.0)];
+    let wins = all_words_upto(alpha.len(), 3);
+    let pres = all_words_upto(alpha.len(), run.pick(1, 2));
+    let fns1 = valid_fns();
+    let fns2 = all2();
+    total.merge(par_items(&wins, run.threads, |ww, ctx| {
+        let w = ww.len();
+        if w < 2 {
+            return;
+        }
+        let win = decode(ww, &alpha);
+        ctx.states += 1;
+        ctx.fam(name).states += 1;
+        ctx.nontrivial(name, hash_bytes(ww));
+        let sec = |x: &[X]| -> Vec<X> { x.iter().enumerate().map(|(i, v)| Some(v.map_or(2.0, |a| a + 1.0) + ((x.len() - i) % 2) as f64)).collect() };
+        for pre in &pres {
+            if pre.is_empty() {
+                continue;
+            }
+            let mut full = decode(pre, &alpha);
+            full.extend(win.iter().cloned());
+            for mp in [Some(0), Some(w)] {
+                for &f in &fns1 {
+                    if matches!(f, R1::Fdiff(_) | R1::Ewm) {
+                        continue;
+                    }
+                    let m = mc_ref::roll::expect1(f, &win, w, mp);
+                    if m.any || (m.null_ok && m.val.is_some()) {
+                        continue;
+                    }
+                    let mut a = Roll1Visitor { f, w, mp, path: Path::Ret, out: vec![] };
+                    for_backends::<f64, _>(&full, 0, &mut a);
+                    for_backends_opt(&full, 0, &mut a);
+                    let mut b = Roll1Visitor { f, w, mp, path: Path::Ret, out: vec![] };
+                    for_backends::<f64, _>(&win, 0, &mut b);
+                    for_backends_opt(&win, 0, &mut b);
+                    for ((bn, fo), (_, wo)) in a.out.iter().zip(b.out.iter()) {
+                        ctx.transitions += 1;
+                        if let (Outcome::Ok(fc), Outcome::Ok(wc)) = (fo, wo) {
+                            let (x, y) = (fc.last().unwrap(), wc.last().unwrap());
+                            ctx.eval(name, x.hash64());
+                            let ok = if f.is_cmp() && !matches!(f, R1::Zscore | R1::Minmax) { exact_eq(x, y) } else { tol_eq(x, y) };
+                            if !ok {
+                                ctx.violation(Violation {
+                                    entry: format!("window-only:{}", r1_name(f, true)),
+                                    finding: None,
+                                    size: full.len() * 100 + w,
+                                    case: json!({"family": name, "backend": bn, "pre_history": json_word(&full[..pre.len()]), "window": json_word(&win), "w": w, "mp": mp_json(mp)}),
+                                    expected: format!("last output as on the window alone: {}", y.show()),
+                                    got: x.show(),
+                                });
+                            }
+                        }
+                    }
+                }
+                let (sf, sw) = (sec(&full), sec(&win));
+                // the second series of the window run must be the tail of the second series of the full run
+                let sw: Vec<X> = sf[sf.len() - w..].to_vec();
+                let _ = sec(&win);
+                for &f in &fns2 {
+                    if matches!(f, R2::All(_)) {
+                        continue;
+                    }
+                    let m = mc_ref::roll::expect2(f, &win, &sw, w, mp);
+                    if m.any || (m.null_ok && m.val.is_some()) {
+                        continue;
+                    }
+                    let mut a = Roll2Visitor { f, second: &sf, w, mp, out: vec![] };
+                    for_backends::<f64, _>(&full, 0, &mut a);
+                    for_backends_opt(&full, 0, &mut a);
+                    let mut b = Roll2Visitor { f, second: &sw, w, mp, out: vec![] };
+                    for_backends::<f64, _>(&win, 0, &mut b);
+                    for_backends_opt(&win, 0, &mut b);
+                    for ((bn, fo), (_, wo)) in a.out.iter().zip(b.out.iter()) {
+                        ctx.transitions += 1;
+                        if let (Outcome::Ok(fc), Outcome::Ok(wc)) = (fo, wo) {
+                            let (x, y) = (fc.last().unwrap(), wc.last().unwrap());
+                            ctx.eval(name, x.hash64());
+                            if !tol_eq(x, y) {
+                                ctx.violation(Violation {
+                                    entry: format!("window-only:{}", r2_name(f)),
+                                    finding: None,
+                                    size: full.len() * 100 + w,
+                                    case: json!({"family": name, "backend": bn, "pre_first": json_word(&full[..pre.len()]), "window_first": json_word(&win), "window_second": json_word(&sw), "w": w, "mp": mp_json(mp)}),
+                                    expected: format!("last output as on the window alone: {}", y.show()),
+                                    got: x.show(),
+                                });
+                            }
+                        }
+                    }
+                }
+            }
+        }
+        ctx.traces += 1;
+    }));
+}
+
 fn main() {
     let run = Run::from_args("C06");
     let a5 = alphabet5(run.seed);
@@ -593,6 +696,7 @@ fn main() {
             "window-only-pairs" => window_only_pairs(&run, &mut ctx),
             "prefix-long" => prefix_long(&run, &mut ctx),
             "window-only-long" => window_only_long(&run, &mut ctx),
+            "window-only-backends" => window_only_backends(&run, &mut ctx),
             _ => window_only(&run, &mut ctx),
         }
         std::process::exit(finish_replay(&run, &stored, ctx));
@@ -605,6 +709,7 @@ fn main() {
     window_only_pairs(&run, &mut total);
     prefix_long(&run, &mut total);
     window_only_long(&run, &mut total);
+    window_only_backends(&run, &mut total);
     let meta = Meta {
         rule: "(a) prefix law on every edge parent->child of the history trees (single series, null-free plain family, pairs, positive-lag shift/vshift/vdiff/vpct_change with n in 0..=len+2 and every fill): f(child)[..len-1] == f(parent) bit for bit, for every window and min_periods; by induction every cut point. (b) window-only dependence: for every window word W (|W|<=w_max) and every pre-history A (|A|<=a_max, finite values and nulls), also for the two-series family over pair words: last output of f(A++W) equals that of f(W) (exact for min/max/arg/rank, 1e-9 otherwise). Non-trivial = word with a non-null element; each edge compares the parent's memoised outputs with the child's.".into(),
         bounds: json!({
